@@ -64,6 +64,7 @@ Ops(S) ==
     ELSE {})
    \cup
    (IF "badpos" \in OpNames /\ Room(S) >= 1 THEN
+      {[name |-> "add_child_nid", p |-> p, d |-> d, x |-> x] : p \in Parents(S), d \in Data, x \in Live(S)} \cup
       UNION {{[name |-> "add_child", p |-> p, d |-> d, xid |-> 0, k |-> 0, pos |-> pos] :
                  d \in Data, pos \in BadPositions(S, p)} : p \in Parents(S)}
     ELSE {})
